@@ -1215,7 +1215,7 @@ func (e *Engine) strConcat(st *State, x, y StrV) StrV {
 	} else {
 		parts = append(parts, y)
 	}
-	return StrV{Arr: arr, Off: x.Off, Len: ln, Cat: parts, Taint: x.Taint || y.Taint}
+	return StrV{Arr: arr, Off: x.Off, Len: ln, Cat: parts, Taint: x.Taint | y.Taint}
 }
 
 // valueEq: structural equality of two values as a term.
@@ -1382,12 +1382,15 @@ func (e *Engine) convert(fr *Frame, st *State, ins ssa.Instruction, v Value, fro
 			return emptyStr()
 		}
 		av := e.heapGet(st, s.Obj).(ArrV)
-		return StrV{Arr: av.Base, Off: s.Off, Len: s.Len}
+		return StrV{Arr: av.Base, Off: s.Off, Len: s.Len, Taint: st.taint[s.Obj]}
 	case isByteSlice(to) && isString(from):
 		s := v.(StrV)
 		o := e.newObj("bytes", under(to).(*types.Slice).Elem(), true)
 		o.Fresh = true
 		st.heap[o] = ArrV{Elem: o.T, Base: s.Arr}
+		if s.Taint != 0 {
+			st.taintSet(o, s.Taint)
+		}
 		return SliceV{Obj: o, Off: s.Off, Len: s.Len, Cap: s.Len, Nil: TFalse, Elem: o.T}
 	case isString(to) && isString(from):
 		return v
@@ -1475,7 +1478,7 @@ func (e *Engine) sliceOp(fr *Frame, st *State, x *ssa.Slice) Value {
 		}
 		e.oblige(st, fr, "safe.slice", x, And(Le(Num(0), lo), Le(lo, hi), Le(hi, a.Len)), "string slice bounds out of range")
 		st.assume(And(Le(Num(0), lo), Le(lo, hi), Le(hi, a.Len)))
-		return StrV{Arr: a.Arr, Off: Add(a.Off, lo), Len: Sub(hi, lo)}
+		return StrV{Arr: a.Arr, Off: Add(a.Off, lo), Len: Sub(hi, lo), Taint: a.Taint}
 	case PtrV: // *array
 		e.nilCheck(fr, st, x, a.Nil, "slice of nil array pointer")
 		at := under(a.Elem).(*types.Array)
